@@ -114,6 +114,10 @@ func buildAtomTable() []AtomRow {
 		AtomRow{Kind: "maxInclusive", Arg: YFloat(-0.5), Sat: []Lit{I(-1), Fl(-0.5)}, Viol: []Lit{I(0), Fl(-0.25)}, Class: "value"},
 		AtomRow{Kind: "in", Arg: YSeq(YFloat(1.5), YFloat(2.5)), Sat: []Lit{Fl(1.5), Fl(2.5)}, Viol: []Lit{Fl(3.5), I(1), I(2)}, Class: "value", TableOnly: true, Finding: "c01-list-argument-fractional-number"},
 		AtomRow{Kind: "in", Arg: YSeq(YStr("")), Sat: strs(""), Viol: strs("a", " "), Class: "value"},
+		// bounds that need more than six decimals
+		AtomRow{Kind: "minInclusive", Arg: YFloat(0.0000005), Sat: []Lit{Fl(0.0000005), I(1), Fl(0.000001)}, Viol: []Lit{I(0), Fl(0.0000004), I(-1)}, Class: "value"},
+		AtomRow{Kind: "maxExclusive", Arg: YFloat(1.2345678), Sat: []Lit{Fl(1.2345677), I(1)}, Viol: []Lit{Fl(1.2345678), Fl(1.234568), I(2)}, Class: "value"},
+		AtomRow{Kind: "minExclusive", Arg: YFloat(-0.00000025), Sat: []Lit{I(0), Fl(-0.0000002)}, Viol: []Lit{Fl(-0.00000025), Fl(-0.0000003), I(-1)}, Class: "value"},
 	)
 	return t
 }
